@@ -465,6 +465,8 @@ pub fn build_chain(id: &str, keys: &Keys, plan: &ChainPlan) -> Vec<Built> {
 pub fn err_class(e: &celestia_types::Error) -> String {
     let s = e.to_string();
     let known = [
+        ("not adjacent", "not-adjacent"),
+        ("untrusted header height", "height"),
         ("Not enought voting power", "not-enough-power"),
         ("signature invalid", "bad-signature"),
         ("bad signature", "bad-signature"),
@@ -487,13 +489,11 @@ pub fn err_class(e: &celestia_types::Error) -> String {
         ("proposer is none", "no-proposer"),
         ("block_id is zero", "zero-block-id"),
         ("no signatures in commit", "no-sigs"),
-        ("untrusted header height", "height"),
         ("different chain", "chain-id"),
         ("must be after", "time-order"),
         ("from the future", "time-future"),
         ("next validators", "next-validators"),
         ("last header hash", "parent-hash"),
-        ("not adjacent", "not-adjacent"),
         ("length != required", "sig-length"),
         ("chain id", "chain-id-len"),
     ];
